@@ -220,6 +220,7 @@ impl InputBuffer {
         broadcast use axiom_str_len_fits;
 //@end
 //@extract sudachi/src/input_text/buffer/mod.rs :: impl InputTextIndex for InputBuffer :: fn to_orig
+//@  twin
 //@  rw R3 1
 //@  ret r
 //@  spec
@@ -227,6 +228,7 @@ impl InputBuffer {
         ensures r.start == self.m2o@[range.start as int], r.end == self.m2o@[range.end as int],
 //@end
 //@extract sudachi/src/input_text/buffer/mod.rs :: impl InputTextIndex for InputBuffer :: fn orig_slice
+//@  twin
 //@  rw R3d 3
 //@  rw R13 1 custom
 //@  | &self\.original\[self\.to_orig\(range\)\]
